@@ -122,7 +122,29 @@ func (r *Run) Violate(sub, fp string, c any, expected, observed string) {
 
 // Guard runs f and converts a panic into a violation with the given
 // fingerprint prefix; it returns true if f panicked.
+// HangTimeout bounds every guarded call: library code that never returns (a lock taken twice, a wait
+// nobody ends) is reported as a violation instead of stalling the check. Nothing a check does inside one
+// guarded call takes more than a fraction of a second; zero disables the watchdog.
+var HangTimeout = 180 * time.Second
+
 func (r *Run) Guard(sub, fpPrefix string, c any, f func()) (panicked bool) {
+	if HangTimeout <= 0 {
+		return r.guard(sub, fpPrefix, c, f)
+	}
+	done := make(chan bool, 1)
+	go func() { done <- r.guard(sub, fpPrefix, c, f) }()
+	t := time.NewTimer(HangTimeout)
+	defer t.Stop()
+	select {
+	case p := <-done:
+		return p
+	case <-t.C:
+		r.Violate(sub, fpPrefix+"/does-not-return", c, "the call returns", fmt.Sprintf("still running after %v (abandoned)", HangTimeout))
+		return true
+	}
+}
+
+func (r *Run) guard(sub, fpPrefix string, c any, f func()) (panicked bool) {
 	defer func() {
 		if e := recover(); e != nil {
 			panicked = true
